@@ -54,11 +54,10 @@ Definition make_ok (expected : option (list (nat * Z) * list (nat * Z))) (dflt :
       list_eqb kz_eqb p p' && forallb (fun vb => opt_eqb val_eqb (inst_value (dflt (fst vb)) (fst vb) u) (snd vb)) vals
   | _, _ => false
   end.
-(* a send outside the whopper guard may answer what the model says (the known finding) or what the
-   specification says (the defect repaired): neither is an alarm *)
+(* a send must answer what the model says, for any number of whoppers (the whopper guard is gone with
+   repo_fixes/C10-2.patch) *)
 Definition send_ok (ss : sstate) (f : nat) (m : mid) (arg : option Z) (model observed : out) : bool :=
-  out_eqb model observed ||
-  (let cs := s_table ss f m in negb (g_whop cs) && out_eqb (s_send (s_var (ss_decls ss) f) arg cs) observed).
+  out_eqb model observed.
 Definition fobs_agree (ss : sstate) (st : state) (o : fobs) : bool :=
   match find_flavor st (o_f o) with
   | None => false
@@ -92,12 +91,12 @@ Definition fobs_violates (ss : sstate) (o : fobs) : bool :=
   existsb (fun s => let cs := s_table ss f (fst (fst s)) in
                     match cs with
                     | [] => negb (out_eqb ([], RNoMethod) (snd s))
-                    | _ => g_whop cs && negb (out_eqb (s_send (s_var ds f) (snd (fst s)) cs) (snd s))
+                    | _ => negb (out_eqb (s_send (s_var ds f) (snd (fst s)) cs) (snd s))
                     end) (o_sends o) ||
   existsb (fun s => let cs := s_table ss f (fst s) in
                     match cs with
                     | [] => negb (out_eqb ([], RNoMethod) (snd s))
-                    | _ => g_whop cs && negb (out_eqb (s_send (s_var ds f) None cs) (snd s))
+                    | _ => negb (out_eqb (s_send (s_var ds f) None cs) (snd s))
                     end) (o_bound o).
 
 Definition spec_violation (c : case) : bool :=
@@ -122,7 +121,7 @@ Fixpoint check_all_from (i : N) (cs : list case) : list (N * N) :=
   end.
 Definition check_all := check_all_from 0%N.
 
-(* counters for the evidence: sends judged inside the whopper guard, sends outside it *)
+(* counters for the evidence: sends with at most two whoppers (the former guard), sends with more *)
 Definition sends_in_guard (c : case) : N :=
   let '(ss, _) := s_history s_init (k_forms c) in
   N.of_nat (fold_left (fun n o => n + length (filter (fun s => g_whop (s_table ss (o_f o) (fst (fst s)))) (o_sends o))) (k_obs c) 0).
